@@ -138,6 +138,12 @@ func sameKVs(got, want []kv) string {
 	return ""
 }
 
+var (
+	c03SharedSlice = &sstables.SliceKeyIndexLoader{ReadBufferSize: 4096}
+	c03SharedSkip  = &sstables.SkipListIndexLoader{KeyComparator: skiplist.BytesComparator{}, ReadBufferSize: 4096}
+	c03SharedDisk  = &sstables.DiskIndexLoader{}
+)
+
 func runC03(c *fw.Case) {
 	r := c.R
 	fam := gen.Pick(r, 0, 1, 2, 3, 4, 5, 6, 7)
@@ -205,6 +211,12 @@ func runC03(c *fw.Case) {
 		{"skiplist", &sstables.SkipListIndexLoader{KeyComparator: skiplist.BytesComparator{}, ReadBufferSize: rbuf}},
 		{"disk", &sstables.DiskIndexLoader{}},
 		{"default", nil},
+	}
+	if c.Idx%2 == 1 {
+		// every other table is opened through loader VALUES that already loaded the tables of earlier cases in this
+		// process (a loader is configuration: what it loaded before must not matter)
+		loaders[0].l, loaders[1].l, loaders[2].l = c03SharedSlice, c03SharedSkip, c03SharedDisk
+		c.Obs("tables_opened_through_loader_values_used_before", 1)
 	}
 	if fam == 5 && !dominating {
 		loaders = append(loaders, ld{"map", &sstables.MapKeyIndexLoader[[4]byte]{ReadBufferSize: rbuf, Mapper: &sstables.Byte4KeyMapper{}}})
